@@ -206,6 +206,21 @@ CLAIMED = {
         technique="Coq proof (per-step certificates, termination bound) + correspondence and exact function oracle by vm_compute",
         note="PART: idempotence and minimality as for-all statements need the uniqueness of the minimal B-spline representation "
              "(not formalised); they are decided per case. Rational curves: K1."),
+    "C15": dict(
+        text="Decided per generated history inside Coq: 1-8 public Curve operations over three curves (two sharing one KnotVector "
+             "object, one a deep copy or independent), ~35% invalid arguments; after EVERY call every curve and every KnotVector "
+             "object is snapshotted and Coq checks: the invariant (well-formed vector, len(ctrlpoints) = npts, equal point "
+             "dimensions, len(weights) = npts), evaluability at umin / middle / umax, atomicity (a raising call leaves all "
+             "snapshots equal), purity of non-mutating calls (evaluation, arithmetic, ==, split, fraction, copy-then-mutate, "
+             "Derivate, Integrate, fitting another curve), frame (a mutator changes its own curve only; the KnotVector objects "
+             "handed to constructors never change). The model's mutators (insert, remove, degree ops, setters, clean family) "
+             "predict the new state of the target curve (exact differential execution step by step). Theorems (Props/C15.v): "
+             "insertion keeps lengths and well-formedness (polynomial and rational), removal/update rebind to a well-formed "
+             "vector, a consistent polynomial curve evaluates at every u of its interval.",
+        design="7/C15",
+        technique="Coq proof (per-operation preservation lemmas) + state-machine correspondence on operation histories by vm_compute",
+        note="The invariant-by-induction theorem over arbitrary histories (Proofs/StateProofs.v) is in progress; aliasing "
+             "(reference semantics of KnotVector objects) is observed, not modelled."),
     "C17": dict(
         text="Unbounded theorems (Props/C17.v), for all well-formed operands whose distinct knots are >= 1e-6 apart: U|V has "
              "degree max(p,q) and, for every value x, multiplicity max of the degree-lifted multiplicities (per-knot maximum at "
